@@ -280,6 +280,19 @@ class Machine:
                 cands = c2
         return cands[0] if len(cands) == 1 else None
 
+    def invoke(self, name, args):
+        """a call made on behalf of a std / library model (e.g. the element comparison inside `all_equal`): client intercept first,
+        then the models"""
+        synth = {"k": "call", "fn": {"def": name, "resolved": name, "generics": [], "local": False}, "args": [], "argtys": [],
+                 "dest": {"local": 0, "proj": []}, "span": ""}
+        a = [absint.deref(x) for x in args]
+        if self.intercept is not None:
+            r = self.intercept(self, name, a, synth, None)
+            if r is not NOT:
+                return r
+        r = self._model(name, a, synth, None)
+        return UNKNOWN if r is NOT else r
+
     def call_closure(self, clo, args):
         g = self.fb.by_path(clo.fn, self.crate) if isinstance(clo, Closure) else None
         if g is None:
@@ -292,7 +305,9 @@ class Machine:
             return self.call_closure(fnv, args)
         if isinstance(fnv, FnItem):
             if self.intercept is not None:
-                r = self.intercept(self, fnv.name, [absint.deref(x) for x in args], None, None)
+                synth = {"k": "call", "fn": {"def": fnv.name, "resolved": fnv.name, "generics": [], "local": False}, "args": [], "argtys": [],
+                         "dest": {"local": 0, "proj": []}, "span": ""}
+                r = self.intercept(self, fnv.name, [absint.deref(x) for x in args], synth, None)
                 if r is not NOT:
                     return r
             g = self.fb.by_path(fnv.name, self.crate)
@@ -751,6 +766,23 @@ class Machine:
                 return UNKNOWN
             if end in ("to_lowercase", "to_uppercase", "to_ascii_lowercase", "to_ascii_uppercase"):
                 return a0.lower() if "lower" in end else a0.upper()
+        if c.endswith("itertools::process_results") and len(a) == 2:
+            # itertools::process_results(iter of Result<T, E>, |ok_values| ..): the closure sees the Ok payloads up to the first Err
+            src = a0 if isinstance(a0, Iter) else (Iter(a0) if type(a0) is list else (self.materialize(a0) if isinstance(a0, Enum) else None))
+            if src is None:
+                raise Stuck("process_results over a source that cannot be enumerated")
+            failed = []
+
+            def g_ok():
+                for x in drain(src):
+                    if not isinstance(x, Enum):
+                        raise Stuck("process_results: item undecided")
+                    if x.variant == 1:
+                        failed.append(x.fields[0] if x.fields else UNKNOWN)
+                        return
+                    yield x.fields[0] if x.fields else UNKNOWN
+            r = self.call_value(a[1], [LazyIter(g_ok())])
+            return err(failed[0]) if failed else ok(r)
         if m("std::hint::must_use", "std::convert::identity", "std::hint::black_box"):
             return a0
         if m("std::mem::drop", "std::ops::Drop>::drop"):
@@ -1166,7 +1198,9 @@ class Machine:
         if len(cands) != 1:
             return NOT
         if self.intercept is not None:
-            r = self.intercept(self, cands[0].name, [it], None, None)
+            synth = {"k": "call", "fn": {"def": cands[0].name, "resolved": cands[0].name, "generics": [], "local": True}, "args": [], "argtys": [],
+                     "dest": {"local": 0, "proj": []}, "span": ""}
+            r = self.intercept(self, cands[0].name, [it], synth, None)
             if r is not NOT:
                 return r
         return self.run(cands[0], [it])
@@ -1321,6 +1355,19 @@ class Machine:
                     if r.variant == 1:
                         yield r.fields[0]
             return LazyIter(g_fmap())
+        if end == "all_equal":
+            # itertools: every element equals the first one
+            first = None
+            for i, x in enumerate(drain(a0)):
+                if i == 0:
+                    first = x
+                    continue
+                r = self.invoke("std::cmp::PartialEq::eq", [first, x])
+                if r is False:
+                    return False
+                if r is not True:
+                    raise Stuck("all_equal: comparison undecided")
+            return True
         if end in ("flatten", "flat_map"):
             def g_flat():
                 for x in drain(a0):
@@ -1575,5 +1622,5 @@ OPTION_METHODS = {"transpose", "map", "and_then", "ok_or", "ok_or_else", "unwrap
                   "is_none", "or", "or_else", "filter", "unwrap", "expect", "take", "replace"}
 RESULT_METHODS = {"transpose", "map", "map_err", "and_then", "or_else", "ok", "err", "is_ok", "is_err", "unwrap_or", "unwrap_or_else", "unwrap",
                   "expect"}
-ITER_METHODS = {"map", "filter", "filter_map", "map_while", "take_while", "flatten", "flat_map", "enumerate", "rev", "skip", "take", "zip", "chain", "collect", "count", "last",
+ITER_METHODS = {"map", "filter", "filter_map", "map_while", "take_while", "flatten", "flat_map", "all_equal", "enumerate", "rev", "skip", "take", "zip", "chain", "collect", "count", "last",
                 "for_each", "fold", "try_fold", "try_for_each", "any", "all", "find", "position", "find_map", "next", "next_back", "nth", "nth_back"}
